@@ -9,7 +9,7 @@ import subprocess
 import sys
 
 from . import core, gen, stores
-from .util import md5hex
+from .util import md5hex, safe_call
 
 PY = sys.executable
 SCENARIOS = ["stage_transfer", "index_save", "store_to_store", "upload_staging", "store_to_store_verify", "store_to_store_index", "stage_transfer_legacy"]
@@ -224,13 +224,43 @@ def conformance(ctx, name, events, root, tree):
     return ok
 
 
+def run_large_batch(ctx):
+    """re-running a transfer whose one existence query names more than 1000 objects (the page size of a store listing), over a
+    destination in the state a kill between the create and the unlink of the first reflink probe leaves: an empty, unprotected
+    file under a final name (reachable: `Crash.Step.probeCreate`, crash point 'create' of store_to_store)"""
+    from dvc_data.hashfile.hash_info import HashInfo
+    from dvc_data.hashfile.transfer import transfer
+
+    rng = ctx.rng
+    root = ctx.mkdtemp()
+    n = rng.choice([1001, 1100, 1200])
+    src = stores.make_odb(os.path.join(root, "src"), local=True)
+    dest = stores.make_odb(os.path.join(root, "odb"), local=True)
+    ids = []
+    for i in range(n):
+        b = b"obj-%d-%d" % (i, rng.randrange(10**6))
+        stores.put_raw(src.path, md5hex(b), b, mode=0o444)
+        ids.append(md5hex(b))
+    victim = rng.choice(ids)
+    stores.put_raw(dest.path, victim, b"", mode=0o644)
+    case = {"large_batch_rerun": {"objects": n, "leftover": victim}}
+    ctx.case(case)
+    ctx.count("large_batch_rerun")
+    kind, res = safe_call(lambda: transfer(src, dest, {HashInfo("md5", o) for o in ids}, shallow=False))
+    probs = audit(root, after_rerun=True)[0]
+    have = set(stores.listing_of(dest.path))
+    ctx.oracle(kind == "ok" and not res.failed and not probs and have == set(ids), case,
+               {"why": "re-running a large transfer over the leftover of an interrupted one does not converge to the uninterrupted store",
+                "result": str(res)[:200], "problems": probs[:3], "missing": sorted(set(ids) - have)[:3]})
+
+
 def run(ctx):
     ctx.rule = (
         "every store-mutating event (open-for-write, copy, rename, chmod, link, unlink, mkdir, state transaction) of each scenario "
         "is a crash point: a child process is killed with os._exit right before it (and, for data copies, after half of the bytes); "
         "the parent audits store and hash-state, re-runs the operation and compares with an uninterrupted run. Scenarios: stage + "
         "transfer into a local store with state, index save of nested directories, store-to-store transfer (plain and verifying "
-        "with a corrupt source), upload staging. non-trivial = every crash point; distinct = (scenario, tree, event index, mode)"
+        "with a corrupt source), upload staging; one re-run of a transfer naming more than 1000 objects over the leftover of an interrupted probe. non-trivial = every crash point; distinct = (scenario, tree, event index, mode)"
     )
     ctx.assumptions = ["a killed process keeps the order of completed system calls (no power loss, no torn rename)",
                        "SQLite transactions are atomic; the state transaction is one crash point"]
@@ -246,6 +276,7 @@ def run(ctx):
                 events, ref = run_scenario(ctx, name, tree, pool)
                 conformance(ctx, name, events, ref, tree)
     ctx.exhaustive["every crash point of every scenario run"] = True
+    run_large_batch(ctx)
 
 
 def search(ctx):
